@@ -300,6 +300,7 @@ def procExact (tck : Nat) (u1 s1 u2 s2 : Nat) (w1 w2 : Rat) : Rat :=
 /-- the last (wall clock, utime, stime) a call samples, if it gets that far -/
 def ptaken (p : PCall) : Option (Rat × Nat × Nat) :=
   if p.negative then none
+  else if p.vanishes then none        -- a call that found the process gone is no sample
   else if p.blocking then
     match p.timer, p.times with
     | _ :: t2 :: _, _ :: (u2, s2) :: _ => some (t2, u2, s2)
@@ -322,6 +323,7 @@ def pprev (obj : Nat) (h : List PCall) : Option (Rat × Nat × Nat) := h.foldl (
 /-- what `Process.cpu_percent` returns after history `h` (exact and rounded) -/
 def pexpectedExact (tck : Nat) (h : List PCall) (p : PCall) : POut :=
   if p.negative then .exc .valueError
+  else if p.vanishes then .exc .noSuchProcess   -- beyond the statement (characterisation): the error is not swallowed
   else if p.blocking then
     match p.timer, p.times with
     | w1 :: w2 :: _, (u1, s1) :: (u2, s2) :: _ => .val (procExact tck u1 s1 u2 s2 w1 w2)
